@@ -29,6 +29,37 @@ def install(r):
                 tot = tot + fresh_int("td")
         return SInt(tot)
 
+    json_dumps = z3.Function("json_dumps", __import__("pyvc.values", fromlist=["VAL"]).VAL, z3.IntSort())
+    json_loads = z3.Function("json_loads", z3.IntSort(), __import__("pyvc.values", fromlist=["VAL"]).VAL)
+
+    @r.ext("json:dumps")
+    def _dumps(I, a, k):
+        # assumed: json.dumps is a function of the value, and json.loads inverts it on JSON-representable values
+        v = I.ops.to_val(a[0])
+        t = json_dumps(v)
+        I.st.assume(json_loads(t) == v)
+        I.st.assume(t != 0)
+        I.st.assume(z3.Function("json_valid", z3.IntSort(), z3.BoolSort())(t))
+        I.st.ghost.setdefault("json_dumped", []).append((t, a[0]))
+        return SStr(t)
+
+    @r.ext("json:loads")
+    def _loads(I, a, k):
+        from pyvc.values import SVal
+
+        s = a[0]
+        t = I.ops.key_term(s) if not isinstance(s, SStr) else s.t
+        ok = z3.Function("json_valid", z3.IntSort(), z3.BoolSort())
+        for t_k, v_k in I.st.ghost.get("json_dumped", []):
+            # loads(dumps(v)) = v for JSON-representable v (assumed): recover the very container that was dumped
+            if I.st.valid(t == t_k):
+                from pyvc.values import SDict as _SD
+
+                return I.ops.copy_dict(v_k) if isinstance(v_k, _SD) else v_k
+        if I.st.branch(z3.Not(ok(t))):
+            I.raise_builtin("JSONDecodeError", "invalid json")
+        return SVal(json_loads(t))
+
     @r.ext("ulid:ULID", "uuid:uuid4")
     def _ulid(I, a, k):
         return I.ops.opaque_str("ulid")
